@@ -6,7 +6,7 @@
    External behaviour enters as parameters: [parse] (regexp.Compile: pattern text -> AST),
    [lsel] (k8s label selectors), [enc] (go-yaml emitter), [cluster_scoped] (openapi). *)
 From KV Require Import Base.Regex Base.RegexProofs Yaml.Match Yaml.MatchProofs Yaml.MatchTotalProofs Yaml.MatchCreateProofs Yaml.MatchFrameProofs Yaml.MatchDisjointProofs
-  Res.Image Res.ImageProofs Res.ImageNormProofs Res.ImageParseProofs Base.RegexParse Res.Selector Res.SelectorProofs Res.Replica Res.ReplicaProofs
+  Res.PatchSelect Res.PatchSelectProofs Res.Image Res.ImageProofs Res.ImageNormProofs Res.ImageParseProofs Base.RegexParse Res.Selector Res.SelectorProofs Res.Replica Res.ReplicaProofs
   Res.Replacement Res.ReplacementProofs Res.ReplacementFrameProofs.
 
 (* ------------------------------------------------------------------ regular expressions *)
@@ -54,6 +54,55 @@ Theorem C10_select_bad_pattern_is_error :
     In p (sel_patterns s) -> compile_anchored parse p = Err -> select parse cs lsel s rs = Err.
 Proof. exact select_bad_pattern. Qed.
 Print Assumptions C10_select_bad_pattern_is_error.
+
+(* ------------------------------------------------------------------ patches: entries *)
+
+(* A `patches:` entry WITH a target changes exactly the resources its selector keeps ([sel_keep]:
+   name and namespace patterns fully match the original or the current id, group / version / kind
+   patterns fully match, label and annotation selectors hold): those receive the patch ([apply], the
+   merge itself is C04's), every other resource is untouched, none is added or lost.
+   Hypotheses as in C10_select_exact. *)
+Theorem C10_patch_selects_exactly :
+  forall (apply : node -> res node) (parse : string -> option re) (cluster_scoped : gvk -> bool)
+         (lsel : string -> list (string * string) -> option bool) (s : selector) (ast : string -> re)
+         (rs rs' : list node),
+    parse "" = Some Eps ->
+    (forall p, In p (sel_patterns s) -> p <> "" -> parse ("^(?:" ++ p ++ ")$") = Some (anchor (ast p))) ->
+    (forall obj, In obj rs -> well_formed lsel s obj) ->
+    patch_transform parse cluster_scoped lsel apply (PTarget s) rs = Ok rs' ->
+    List.length rs' = List.length rs /\
+    forall j obj, nth_error rs j = Some obj ->
+      (sel_keep cluster_scoped lsel s ast obj = true -> exists obj', apply obj = Ok obj' /\ nth_error rs' j = Some obj') /\
+      (sel_keep cluster_scoped lsel s ast obj = false -> nth_error rs' j = Some obj).
+Proof. exact patch_target_selects_exactly. Qed.
+Print Assumptions C10_patch_selects_exactly.
+
+(* An entry WITHOUT a target (a strategic-merge body naming a resource) changes exactly ONE resource:
+   the only one with an id — previous or current — equal to the id of the body (same effective
+   namespace, name, group, version, kind); none or several is an error. *)
+Theorem C10_patch_by_name_selects_exactly :
+  forall (apply : node -> res node) (parse : string -> option re) (cluster_scoped : gvk -> bool)
+         (lsel : string -> list (string * string) -> option bool) (id : resid) (rs rs' : list node),
+    patch_transform parse cluster_scoped lsel apply (PById id) rs = Ok rs' ->
+    exists i, List.length rs' = List.length rs /\
+      (exists obj obj', nth_error rs i = Some obj /\ any_id_equals cluster_scoped id obj = Ok true /\
+                        apply obj = Ok obj' /\ nth_error rs' i = Some obj') /\
+      forall j obj, j <> i -> nth_error rs j = Some obj ->
+        any_id_equals cluster_scoped id obj = Ok false /\ nth_error rs' j = Some obj.
+Proof. exact patch_by_id_selects_exactly. Qed.
+Print Assumptions C10_patch_by_name_selects_exactly.
+
+(* both kinds: exactly the indices [patch_targets] computes are patched *)
+Theorem C10_patch_transform_exact :
+  forall (apply : node -> res node) parse cluster_scoped lsel (e : patch_entry) (rs rs' : list node),
+    patch_transform parse cluster_scoped lsel apply e rs = Ok rs' ->
+    exists idx, patch_targets parse cluster_scoped lsel e rs = Ok idx /\
+      List.length rs' = List.length rs /\
+      forall j obj, nth_error rs j = Some obj ->
+        (In j idx -> exists obj', apply obj = Ok obj' /\ nth_error rs' j = Some obj') /\
+        (~ In j idx -> nth_error rs' j = Some obj).
+Proof. exact patch_transform_exact. Qed.
+Print Assumptions C10_patch_transform_exact.
 
 (* ------------------------------------------------------------------ images *)
 
